@@ -1,4 +1,5 @@
 From Coq Require Import ZArith Extraction ExtrOcamlBasic.
-From CyVerif Require Import Lib.CInt Model.M_BufFmt.
+From CyVerif Require Import Lib.CInt Model.M_BufFmt Model.M_MemviewAxes.
 Extraction "../ocaml/gen/m_buffmt.ml" ex_keep check check_fuel render spec_accept layout smatch
-  fmt_toks mkfixes mkleaf mktinfo parse_number decimal.
+  fmt_toks mkfixes mkleaf mktinfo parse_number decimal
+  check_tree walk flatten flat_ti s_init s_cur s_advance ticmp cinfo_compat cflat validate_axes.
